@@ -30,6 +30,22 @@
               a select on `melt`; on melt Collect closes the caught peer and
               returns the "melted" error.
 
+   The connection above (snowflake.go SnowflakeConn.Close): a closer is a call
+   of SnowflakeConn.Close = Stream.Close(); snowflakes.End(); pconn.Close();
+   sess.Close().  The reliability layer may die BY ITSELF before the
+   application's first Close (environment action SessionDies: smux keep-alive
+   timeout after 10 min without inbound data - exactly when no proxy works -
+   or the packet conn failing): every stream is then dead and Stream.Close()
+   returns io.ErrClosedPipe, exactly as it does for a repeated Close.  The
+   obligations after Close returns are the same in both cases (melted, every
+   held peer closed, no further Catch; Close idempotent), so Close must not
+   take "stream already dead" for "already closed by me".  Stream.Close()
+   touches nothing of Peers, so it is merged into the step that makes the call
+   (EStart); pconn.Close()/sess.Close() likewise into the returning step.
+   What-if constant Mut_CloseSkipsDeadStream (FALSE = the code): Close returns
+   early when the stream is already dead; its configuration must violate
+   AllClosedAfterEnd (vacuity check of SessionDies).
+
    Don't-care regions (the property does not speak about them):
    * which error text Collect returns (only its class: melted / capacity /
      catch error / ok);
@@ -47,10 +63,11 @@ CONSTANTS
   MaxCatches,  \* bound on the number of rendezvous attempts (guard of LoopWait)
   Closers,     \* identities of the End calls, e.g. {1, 2}
   AsIs_D8,     \* BOOLEAN, see above
-  AsIs_D9      \* BOOLEAN, see above
+  AsIs_D9,     \* BOOLEAN, see above
+  Mut_CloseSkipsDeadStream   \* BOOLEAN what-if, see above (FALSE = the code)
 
 ASSUME Max \in Nat \ {0} /\ NPeers \in Nat /\ MaxCatches \in Nat
-ASSUME AsIs_D8 \in BOOLEAN /\ AsIs_D9 \in BOOLEAN
+ASSUME AsIs_D8 \in BOOLEAN /\ AsIs_D9 \in BOOLEAN /\ Mut_CloseSkipsDeadStream \in BOOLEAN
 ASSUME Closers \subseteq Nat \ {0}
 
 VARIABLES
@@ -65,10 +82,11 @@ VARIABLES
   catches,     \* number of Tongue.Catch calls started
   ppc, preg, pres, inUse,   \* popper: pc, peer just received, last result (-1 none yet, 0 nil), peer handed out last
   epc,         \* closers: pc of every End call
-  panicked     \* some goroutine panicked
+  panicked,    \* some goroutine panicked
+  streamDead   \* the smux stream is dead: the session died by itself, or a Close call closed it
 
 vars == <<chan, chanClosed, active, closedPeers, melted, lockHolder, cpc, cres, cur,
-          nextPeer, catches, ppc, preg, pres, inUse, epc, panicked>>
+          nextPeer, catches, ppc, preg, pres, inUse, epc, panicked, streamDead>>
 
 Caught == 1..(nextPeer - 1)
 Held   == Caught \ closedPeers              \* live peers the client holds
@@ -88,6 +106,7 @@ TypeOK ==
   /\ nextPeer \in 1..(NPeers + 1) /\ catches \in 0..MaxCatches
   /\ ppc \in PPcs /\ preg \in 0..NPeers /\ pres \in -1..NPeers /\ inUse \in 0..NPeers
   /\ epc \in [Closers -> EPcs]
+  /\ streamDead \in BOOLEAN
 
 Init ==
   /\ chan = <<>> /\ chanClosed = FALSE /\ active = {} /\ closedPeers = {}
@@ -96,11 +115,12 @@ Init ==
   /\ ppc = "idle" /\ preg = 0 /\ pres = -1 /\ inUse = 0
   /\ epc = [i \in Closers |-> "idle"]
   /\ panicked = FALSE
+  /\ streamDead = FALSE
 
 -----------------------------------------------------------------------------
 (* Collector: connectLoop + Collect *)
 
-UC == UNCHANGED <<ppc, preg, pres, inUse, epc, panicked>>   \* collector steps leave popper/closers alone
+UC == UNCHANGED <<ppc, preg, pres, inUse, epc, panicked, streamDead>>   \* collector steps leave popper/closers alone
 
 (* connectLoop: the timer branch of its select (or the first iteration):
    call Collect again.  Environment step (time passing); the select may take
@@ -177,7 +197,7 @@ CUnlock ==
 -----------------------------------------------------------------------------
 (* Popper: Pop *)
 
-UP == UNCHANGED <<chanClosed, active, melted, lockHolder, cpc, cres, cur, nextPeer, catches, epc, panicked>>
+UP == UNCHANGED <<chanClosed, active, melted, lockHolder, cpc, cres, cur, nextPeer, catches, epc, panicked, streamDead>>
 
 PopCall ==
   /\ ppc = "idle"
@@ -212,17 +232,29 @@ PeerCloses(k) ==
   /\ k \in Held
   /\ closedPeers' = closedPeers \cup {k}
   /\ UNCHANGED <<chan, chanClosed, active, melted, lockHolder, cpc, cres, cur, nextPeer, catches,
+                 ppc, preg, pres, inUse, epc, panicked, streamDead>>
+
+(* Environment: the reliability layer above closes itself (smux keep-alive
+   timeout, packet conn failure): the stream is dead before the application
+   has called Close.  Nothing of Peers changes. *)
+SessionDies ==
+  /\ ~streamDead
+  /\ streamDead' = TRUE
+  /\ UNCHANGED <<chan, chanClosed, active, closedPeers, melted, lockHolder, cpc, cres, cur, nextPeer, catches,
                  ppc, preg, pres, inUse, epc, panicked>>
 
 -----------------------------------------------------------------------------
 (* Closers: End *)
 
 UE == UNCHANGED <<cpc, cres, cur, nextPeer, catches, ppc, preg, pres, inUse>>
+UES == UE /\ UNCHANGED streamDead
 Set(i, pc) == epc' = [epc EXCEPT ![i] = pc]
 
+(* the call, with Stream.Close() (see the head comment) *)
 EStart(i) ==
   /\ epc[i] = "idle"
-  /\ Set(i, "melt")
+  /\ (IF Mut_CloseSkipsDeadStream /\ streamDead THEN Set(i, "done") ELSE Set(i, "melt"))
+  /\ streamDead' = TRUE
   /\ UNCHANGED <<chan, chanClosed, active, closedPeers, melted, lockHolder, panicked>> /\ UE
 
 (* Pinned code: close(p.melt) whatever its state.
@@ -234,17 +266,17 @@ EMelt(i) ==
         THEN (IF AsIs_D8 THEN panicked' = TRUE /\ Set(i, "panicked")
                          ELSE panicked' = panicked /\ Set(i, "waitonce")) /\ melted' = melted
         ELSE melted' = TRUE /\ panicked' = panicked /\ Set(i, "wantlock"))
-  /\ UNCHANGED <<chan, chanClosed, active, closedPeers, lockHolder>> /\ UE
+  /\ UNCHANGED <<chan, chanClosed, active, closedPeers, lockHolder>> /\ UES
 
 EWaitOnce(i) ==
   /\ epc[i] = "waitonce" /\ (\E j \in Closers : epc[j] = "done")
   /\ Set(i, "done")
-  /\ UNCHANGED <<chan, chanClosed, active, closedPeers, melted, lockHolder, panicked>> /\ UE
+  /\ UNCHANGED <<chan, chanClosed, active, closedPeers, melted, lockHolder, panicked>> /\ UES
 
 ELock(i) ==
   /\ epc[i] = "wantlock" /\ lockHolder = 0
   /\ lockHolder' = i /\ Set(i, "closechan")
-  /\ UNCHANGED <<chan, chanClosed, active, closedPeers, melted, panicked>> /\ UE
+  /\ UNCHANGED <<chan, chanClosed, active, closedPeers, melted, panicked>> /\ UES
 
 (* close(p.snowflakeChan); a second close panics and the deferred Unlock runs.
    (Unreachable in both variants - the second End never gets this far - but
@@ -254,19 +286,19 @@ ECloseChan(i) ==
   /\ (IF chanClosed
         THEN panicked' = TRUE /\ Set(i, "panicked") /\ lockHolder' = 0 /\ chanClosed' = chanClosed
         ELSE chanClosed' = TRUE /\ Set(i, "closeall") /\ UNCHANGED <<panicked, lockHolder>>)
-  /\ UNCHANGED <<chan, active, closedPeers, melted>> /\ UE
+  /\ UNCHANGED <<chan, active, closedPeers, melted>> /\ UES
 
 (* Count() then Close + Remove of every element. *)
 ECloseAll(i) ==
   /\ epc[i] = "closeall"
   /\ closedPeers' = closedPeers \cup active /\ active' = {}
   /\ Set(i, "unlock")
-  /\ UNCHANGED <<chan, chanClosed, melted, lockHolder, panicked>> /\ UE
+  /\ UNCHANGED <<chan, chanClosed, melted, lockHolder, panicked>> /\ UES
 
 EUnlock(i) ==
   /\ epc[i] = "unlock"
   /\ lockHolder' = 0 /\ Set(i, "done")
-  /\ UNCHANGED <<chan, chanClosed, active, closedPeers, melted, panicked>> /\ UE
+  /\ UNCHANGED <<chan, chanClosed, active, closedPeers, melted, panicked>> /\ UES
 
 -----------------------------------------------------------------------------
 CollectorCode == CLock \/ CCheckMelt \/ CCount \/ CCatchStart \/ CPush \/ CSend \/ CSendMelted \/ CUnlock
@@ -281,6 +313,7 @@ EnvNext ==
   \/ LoopWait \/ LoopStop \/ CCatchOK \/ CCatchErr \/ PopCall
   \/ (\E i \in Closers : EStart(i))
   \/ (\E k \in 1..NPeers : PeerCloses(k))
+  \/ SessionDies
 
 Next == CodeNext \/ EnvNext
 
